@@ -43,17 +43,30 @@ def units(t):
 # endpoints with outages
 # ------------------------------------------------------------------------------------------------
 class _OutageMixin(object):
-  def c09_init(self, up):
+  def c09_init(self, up, hole=0):
     self.up = up
     self.silent = False
-    self.reachable = lambda now: self.up
+    self.hole = hole          # > 0: while down, a connect is not refused at once but times out after `hole` ticks
+    self.reachable = self._reach
+
+  def _reach(self, now):
+    if self.up:
+      return True
+    if self.hole:
+      w = V.W()
+      # the attempt starts now; vworld logs the 'connect' entry (with this start time) only when it has ended
+      w.log.append((w.clock.now, 'connect-begin', self.port))
+      V.vsleep(self.hole * V.TICK)
+      return _socket.timeout('timed out')
+    return False
 
   def _live(self):
     return [c for c in self.conns if not c.closed_by_client and not c.closed_by_peer]
 
-  def go_down(self, mode):
+  def go_down(self, mode, hole=0):
     w = V.W()
     self.up = False
+    self.hole = hole
     self.silent = (mode == 'silent')
     for c in self._live():
       if mode == 'reset':
@@ -68,6 +81,7 @@ class _OutageMixin(object):
 
   def go_up(self):
     self.up = True
+    self.hole = 0
     self.silent = False
 
   def on_connect(self, conn):
@@ -245,7 +259,7 @@ def _state_name(st):
 def run(case):
   cfg = case['config']
   rng = random.Random(cfg.get('seed', 0))
-  w = V.World(rng, t0=T0, tie=cfg.get('tie', 'fifo'), resolution=cfg.get('resolution', 1) * V.TICK)
+  w = V.World(rng, t0=cfg.get('t0', T0), tie=cfg.get('tie', 'fifo'), resolution=cfg.get('resolution', 1) * V.TICK)
   w.c09 = {'n': 0, 'insts': {}}
   install_hooks()
   try:
@@ -259,22 +273,31 @@ def _run(case, cfg, w):
   from scales.loadbalancer.zookeeper import Endpoint
   from scales.resurrector import ResurrectorSink
   stack = cfg['stack']
+  t0 = cfg.get('t0', T0)
   servers, members = {}, {}
   for ep in cfg['endpoints']:
+    default = {'act': 'reply', 'delay': ep.get('reply_delay', 0)}
+    if ep.get('chunks') and stack == 'thrift':
+      default['chunks'] = ep['chunks']
     if stack == 'thrift':
-      srv = OutageThriftServer(ep['port'], plan=None, default={'act': 'reply', 'delay': ep.get('reply_delay', 0)})
+      srv = OutageThriftServer(ep['port'], plan=None, default=default)
     else:
-      srv = OutageMuxServer(ep['port'], plan=None, default={'act': 'reply', 'delay': ep.get('reply_delay', 0)}, ping=True)
-    srv.c09_init(ep.get('init', 'up') == 'up')
+      srv = OutageMuxServer(ep['port'], plan=None, default=default, ping=True)
+    srv.c09_init(ep.get('init', 'up') == 'up', ep.get('init_hole', 0))
     srv.connect_delay = ep.get('connect_delay', 0)
     w.add_server(srv)
     servers[ep['port']] = srv
     members[ep['port']] = ScalesUriParser.Server(Endpoint('h', ep['port']))
-  provider = S.DynServerSet([members[ep['port']] for ep in cfg['endpoints']])
+  provider = S.DynServerSet([members[ep['port']] for ep in cfg['endpoints'] if ep.get('member', True)])
   timeout_s = cfg.get('timeout', 64) * V.TICK
   if stack == 'thrift':
     from scales.thrift.builder import Thrift
+    from scales.pool import WatermarkPoolSink
     b = Thrift.NewBuilder(Hello.Iface)
+    if 'pool' in cfg:
+      pl = cfg['pool']
+      b.ReplaceSink(type(WatermarkPoolSink.Builder()), WatermarkPoolSink.Builder(
+          min_watermark=pl.get('min', 1), max_watermark=pl.get('max', 2 ** 31 - 1), max_queue_len=pl.get('maxq', 2 ** 31 - 1)))
   else:
     from scales.thriftmux.builder import ThriftMux
     b = ThriftMux.NewBuilder(Hello.Iface, client_id='cid')
@@ -291,13 +314,19 @@ def _run(case, cfg, w):
   calls = {}
   built = {}
 
+  def tk(t):
+    """virtual time -> ticks since the start of the case (exact when the time is a whole tick)"""
+    x = (t - t0) / V.TICK
+    r = round(x)
+    return r if abs(x - r) < 1e-9 else x
+
   def build():
     built['c'] = b.Build()
   g = gevent.spawn(build)
   w.greenlets.append(g)
   w.settle()
-  w.run_until(lambda: 'c' in built or g.dead, T0 + 64 * V.TICK)
-  trace = {'calls': calls, 'built_at': S.ticks(w.clock.now) if 'c' in built else None}
+  w.run_until(lambda: 'c' in built or g.dead, t0 + 64 * V.TICK)
+  trace = {'calls': calls, 'built_at': tk(w.clock.now) if 'c' in built else None}
   client = built.get('c')
   w.log.append((w.clock.now, 'client-built', client is not None))
   closed = [False]
@@ -307,63 +336,82 @@ def _run(case, cfg, w):
       closed[0] = True
       w.log.append((w.clock.now, 'client-close', who))
       client.DispatcherClose()
-      trace['closed_at'] = S.ticks(w.clock.now)
+      trace['closed_at'] = tk(w.clock.now)
+
+  def issue(cid, e, depth=0):
+    rec = {'id': cid, 'issued': tk(w.clock.now), 'done': []}
+    calls[cid] = rec
+    w.log.append((w.clock.now, 'call', cid, depth))
+    if client is None:
+      rec['issue_error'] = 'no client'
+      return
+    try:
+      ar = client.hi_async(cid + '|')
+    except Exception as ex:
+      rec['issue_error'] = type(ex).__name__
+      return
+
+    def on_done(a, rec=rec):
+      k, v = S.outcome_kind(a)
+      rec['done'].append({'at': tk(w.clock.now), 'kind': k, 'value': v})
+      w.log.append((w.clock.now, 'call-done', rec['id'], k))
+    ar.rawlink(on_done)
+    if e.get('close_on_error') or e.get('redispatch'):
+      # an application reacting to a failed call the moment its caller wakes up - i.e. possibly *between* a fault being
+      # raised below and its delivery to the sinks above (fault notifications travel in their own greenlets):
+      # it gives up on the client (close_on_error) or calls again at once, up to `redispatch` times in a row
+      def caller(ar=ar, rec=rec):
+        ar.wait()
+        if ar.successful() or closed[0]:
+          return
+        if e.get('redispatch', 0) > depth:
+          issue('%sr%d' % (e['id'], depth + 1), e, depth + 1)
+        elif e.get('close_on_error'):
+          do_close('caller of %s' % rec['id'])
+      w.greenlets.append(gevent.spawn(caller))
 
   def do_op(e):
     op = e['op']
     if op == 'call':
-      cid = e['id']
-      rec = {'id': cid, 'issued': S.ticks(w.clock.now), 'done': []}
-      calls[cid] = rec
-      w.log.append((w.clock.now, 'call', cid))
-      if client is None:
-        rec['issue_error'] = 'no client'
-        return
-      try:
-        ar = client.hi_async(cid + '|')
-      except Exception as ex:
-        rec['issue_error'] = type(ex).__name__
-        return
-
-      def on_done(a, rec=rec):
-        k, v = S.outcome_kind(a)
-        rec['done'].append({'at': S.ticks(w.clock.now), 'kind': k, 'value': v})
-        w.log.append((w.clock.now, 'call-done', rec['id'], k))
-      ar.rawlink(on_done)
-      if e.get('close_on_error'):
-        # an application that gives up on the client the moment a call fails: the caller is blocked on the result
-        # and closes the client as soon as it wakes up with an error - i.e. possibly *between* a fault being raised
-        # below and its delivery to the sinks above (fault notifications travel in their own greenlets)
-        def caller(ar=ar, rec=rec):
-          ar.wait()
-          if not ar.successful() and not closed[0]:
-            do_close('caller of %s' % rec['id'])
-        w.greenlets.append(gevent.spawn(caller))
+      issue(e['id'], e)
     elif op == 'down':
       w.log.append((w.clock.now, 'ep-down', e['port'], e.get('mode', 'reset')))
-      servers[e['port']].go_down(e.get('mode', 'reset'))
+      servers[e['port']].go_down(e.get('mode', 'reset'), e.get('hole', 0))
     elif op == 'up':
       w.log.append((w.clock.now, 'ep-up', e['port']))
       servers[e['port']].go_up()
     elif op == 'close':
       do_close('driver')
+    elif op == 'leave':
+      w.log.append((w.clock.now, 'ss-leave', e['port']))
+      provider.leave(members[e['port']])
+    elif op == 'join':
+      w.log.append((w.clock.now, 'ss-join', e['port']))
+      provider.join(members[e['port']])
 
-  for e in sorted(case['ops'], key=lambda e: e['at']):
-    w.advance_to(max(w.clock.now, T0 + e['at'] * V.TICK))
+  # ops are executed in list order (stable by tick).  An op flagged 'timer' is not run by the driver after the world has
+  # settled at its tick but as a timer of the virtual clock registered now, i.e. before every timer the client creates
+  # later: with tie='fifo' it runs before, with tie='lifo' after, the client's own timers due at the same instant
+  # (a retry's wake-up exactly at that tick).
+  for e in case['ops']:
+    if e.get('timer'):
+      w.clock.call_at(t0 + e['at'] * V.TICK, lambda e=e: do_op(e))
+  for e in sorted([e for e in case['ops'] if not e.get('timer')], key=lambda e: e['at']):
+    w.advance_to(max(w.clock.now, t0 + e['at'] * V.TICK))
     do_op(e)
     w.settle()
-  w.advance_to(max(w.clock.now, T0 + cfg.get('horizon', 640) * V.TICK))
+  w.advance_to(max(w.clock.now, t0 + cfg.get('horizon', 640) * V.TICK))
   w.log.append((w.clock.now, 'horizon'))
 
-  trace['now'] = S.ticks(w.clock.now)
+  trace['now'] = tk(w.clock.now)
   trace['servers'] = {}
   for port, srv in servers.items():
     trace['servers'][str(port)] = {
-        'requests': [{'at': S.ticks(r['time']), 'conn': r['conn'], 'id': r['arg'].split('|')[0]} for r in srv.requests],
+        'requests': [{'at': tk(r['time']), 'conn': r['conn'], 'id': r['arg'].split('|')[0]} for r in srv.requests],
         'malformed': [str(m) for m in srv.malformed]}
   trace['crashes'] = list(w.crashes)
   # the single ordered log: [ticks (float), exact time in 2**-52 s, kind, args...]
-  trace['log'] = [[S.ticks(x[0]), units(x[0]), x[1]] + [y if isinstance(y, (int, bool, type(None))) else str(y) for y in x[2:]]
+  trace['log'] = [[tk(x[0]), units(x[0]), x[1]] + [y if isinstance(y, (int, bool, type(None))) else str(y) for y in x[2:]]
                   for x in w.log]
   if client is not None and not closed[0]:
     try:
